@@ -189,7 +189,10 @@ class StudentT(Likelihood):
         return _standard_t(self.noise_std_inv(self.data - primals), self.dof)
 
     def metric(self, primals, tangents):
-        return self.noise_cov_inv((self.dof + 1) / (self.dof + 3) * tangents)
+        # NOTE, `dof` may vary across data points and need not commute with a
+        # non-diagonal `noise_std_inv`; stay consistent with `left_sqrt_metric`
+        fct = (self.dof + 1) / (self.dof + 3)
+        return self.noise_std_inv(fct * self.noise_std_inv(tangents))
 
     def left_sqrt_metric(self, primals, tangents):
         return self.noise_std_inv(((self.dof + 1) / (self.dof + 3)) ** 0.5 * tangents)
@@ -198,7 +201,7 @@ class StudentT(Likelihood):
         return self.left_sqrt_metric(None, self.data - primals)
 
     def transformation(self, primals):
-        return self.noise_std_inv(((self.dof + 1) / (self.dof + 3)) ** 0.5 * primals)
+        return ((self.dof + 1) / (self.dof + 3)) ** 0.5 * self.noise_std_inv(primals)
 
 
 class Poissonian(Likelihood):
